@@ -581,8 +581,8 @@ fn run_case(case: &Case) -> Exec {
             ex.tag(t);
         }
     }
-    // generator family = case name up to the first digit / dash
-    let fam: String = case.name.chars().take_while(|c| c.is_ascii_alphabetic() || *c == '/').collect();
+    // generator family = leading letters of the case name (corpus, rnd, hostile, waker, join, phase, hot, xa..xg)
+    let fam: String = case.name.chars().take_while(|c| c.is_ascii_alphabetic()).collect();
     ex.tag(format!("fam:{fam}"));
     ex.nontrivial = spawned && case.lines.len() >= 4;
     ex
@@ -1403,6 +1403,6 @@ fn main() {
     run_harness(
         generate,
         run_case,
-        "cases: (a) exhaustive: every program of 1..L operations over {spawn s, tick, hpoll 0 0, hpoll 0 1, hpoll 1 0, hdrop 0, hdrop 1, hdetach 0, hcancel 0, wake 0, wdrop 0, xdrop} that starts with a spawn, spawns at most 2 tasks and has no operation that is invalid by syntax alone (unknown id, handle already consumed, dead executor, no waker clone possible); quick: scripts {r,sr,cx,p} with L=4 for max_interval 1 and L=3 for 61; thorough: scripts {r,sr,cx,p} with L=7 for max_interval 1 and 61, scripts {x,ssr,ccr,cs} with L=6 for max_interval 1, 2, 3. (b) generated (quick 2500, thorough 40000), one executor with max_interval in {1,2,3,61} each: 25% unstructured random programs of spawn(script)/tick/handle poll,drop,detach,cancel/waker wake,drop/executor drop; 10% hostile (ids out of range, consumed handles, wake/wdrop without clone, operations on a dropped executor, max_interval in {0,1,2,4,5,61,100}); 17% waker (scripts s*c..: tick, then wake/wdrop while pending, after completion, as last holder, after hdrop/hcancel, after xdrop); 17% join (scripts s*(r|x): handle parked with one/two/the same waker before the completing tick, then poll/drop/detach/cancel/xdrop and polls of consumed handles); 17% phase (hdrop/hdetach/hcancel/xdrop before the first tick, while pending, after completion with the result untaken, after xdrop, then handle and waker operations); 14% hot (max_interval 1..3, 2-6 mostly self-waking tasks, many ticks). The generator keeps a syntactic shadow (scripts, ticks, consumed handles) only to bias choices; it never judges outputs. Every case ends with stat of every task and the wake log; after the last line the harness keeps ticking until the executor runs dry (starvation monitor) and then drops everything (drop-count monitors). distinct by text; non-trivial = some spawn succeeded and at least 4 lines",
+        "cases: (a) exhaustive: every program of 1..L operations over {spawn s, tick, hpoll 0 0, hpoll 0 1, hpoll 1 0, hdrop 0, hdrop 1, hdetach 0, hcancel 0, wake 0, wdrop 0, xdrop} that starts with a spawn, spawns at most 2 tasks and has no operation that is invalid by syntax alone (unknown id, handle already consumed, dead executor, no waker clone possible); quick: scripts {r,sr,cx,p} with L=4 for max_interval 1 and L=3 for 61; thorough: scripts {r,sr,cx,p} with L=7 for max_interval 61 and L=6 for 1 and 2; scripts {x,ssr,ccr,cs} with L=6 for max_interval 61 and L=5 for 1, 2, 3. (b) generated (quick 2500, thorough 40000), one executor with max_interval in {1,2,3,61} each: 25% unstructured random programs of spawn(script)/tick/handle poll,drop,detach,cancel/waker wake,drop/executor drop; 10% hostile (ids out of range, consumed handles, wake/wdrop without clone, operations on a dropped executor, max_interval in {0,1,2,4,5,61,100}); 17% waker (scripts s*c..: tick, then wake/wdrop while pending, after completion, as last holder, after hdrop/hcancel, after xdrop); 17% join (scripts s*(r|x): handle parked with one/two/the same waker before the completing tick, then poll/drop/detach/cancel/xdrop and polls of consumed handles); 17% phase (hdrop/hdetach/hcancel/xdrop before the first tick, while pending, after completion with the result untaken, after xdrop, then handle and waker operations); 14% hot (max_interval 1..3, 2-6 mostly self-waking tasks, many ticks). The generator keeps a syntactic shadow (scripts, ticks, consumed handles) only to bias choices; it never judges outputs. Every case ends with stat of every task and the wake log; after the last line the harness keeps ticking until the executor runs dry (starvation monitor) and then drops everything (drop-count monitors). distinct by text; non-trivial = some spawn succeeded and at least 4 lines",
     );
 }
